@@ -983,10 +983,20 @@ class TestResult(unittest.TestResult):
             self._threads = threadsupport.enumerate()
             if not hasattr(self, "_start_time"):
                 self._start_time = time.time()
+            buffered = False
         else:
-            self._restoreStdStreams()
+            # A skip does not end the test: ``tearDown`` and cleanups may
+            # still write and even fail.  Keep what was buffered so far and
+            # go on buffering after the skip has been reported.
+            buffered = self.options.buffer and self._std_streams_buffered
+            if buffered:
+                sys.stdout = self._original_stdout
+                sys.stderr = self._original_stderr
         unittest.TestResult.addSkip(self, test, reason)
         self.options.output.test_skipped(test, reason)
+        if buffered:
+            sys.stdout = self._stdout_buffer
+            sys.stderr = self._stderr_buffer
 
     def addSubTest(self, test, subtest, exc_info):
         if exc_info is None:
@@ -1073,6 +1083,9 @@ class TestResult(unittest.TestResult):
             self.stop()
 
     def stopTest(self, test):
+        # Discard what a test without failure or error left in the buffers
+        # and make sure the original streams are back in any case.
+        self._restoreStdStreams()
         self.testTearDown()
         # Without clearing, cyclic garbage referenced by the test
         # would be reported in the following test.
